@@ -47,6 +47,7 @@ ASSUMPTIONS = [
 SIG = 'C01/'
 SIG_SQLITE_L0 = 'C01/background-inside-extent/sqlite-level0'
 SIG_SMALL_QUADS = 'C01/misplaced/mesh-quads-under-50px-unchecked'
+SIG_TILE_LEVEL = 'C01/misplaced/tile-source-level-picked-by-stretched-resolution'
 SIG_WMTS_FI_ROW = 'C01/featureinfo-misplaced/wmts-row-not-flipped-on-sw-origin-grid'
 MESH_EXPOSURE_LIMIT = 0.5
 QUICK_CONFIGS = 800
@@ -977,6 +978,20 @@ def touches_sqlite_level0(spec, chain, vm):
     return False
 
 
+def tile_source_close_levels(spec, chain):
+    """True if the layer is fed by a tile source whose grid has two neighbouring levels closer together than the
+    stretch factor (1.15): TiledSource picks the level of a requested tile with TileGrid.closest_level, which may
+    answer the coarser neighbour for a resolution that is one rounding error above the level's own."""
+    s = chain['source']
+    if s['type'] != 'tile' or not chain['grids']:
+        return False
+    for name in set([s['grid'], chain['grids'][-1]]):
+        res = confgen.grid_resolutions(spec['grids'][name])
+        if any(a / b <= 1.15 * (1 + 1e-9) for a, b in zip(res, res[1:])):
+            return True
+    return False
+
+
 def run_case(case, st_, only=None, exclude_known=True):
     """Run the deployment of a case and all (or the `only`-th) of its views.  Returns (Violation|None, index)."""
     spec = case['spec']
@@ -1012,6 +1027,10 @@ def run_view(dep, case, k, rd, gnd, st_, open_sigs=frozenset()):
     if sqlite_l0 and SIG_SQLITE_L0 in open_sigs:
         # open known finding: do not even issue the request (it would store empty tiles in cascading caches)
         st_.excluded['known-finding:sqlite-cache-level-0'] += 1
+        return None
+    close_levels = tile_source_close_levels(spec, chain)
+    if close_levels and SIG_TILE_LEVEL in open_sigs:
+        st_.excluded['known-finding:tile-source-grid-with-levels-closer-than-stretch-factor'] += 1
         return None
     small_quads = vm['mesh_exposure'] > MESH_EXPOSURE_LIMIT
     if small_quads and SIG_SMALL_QUADS in open_sigs:
@@ -1090,6 +1109,9 @@ def run_view(dep, case, k, rd, gnd, st_, open_sigs=frozenset()):
             signature = SIG_SMALL_QUADS
         elif what == 'wmts-row-not-flipped':
             signature = SIG_WMTS_FI_ROW
+        elif close_levels and what in ('misplaced', 'background-inside-extent', 'content-outside-extent',
+                                       'roundtrip-resampled'):
+            signature = SIG_TILE_LEVEL
         one = {'spec': spec, 'ground': case['ground'], 'requests': case['requests'][:k + 1]}
         return core.Violation(signature,
                               '%s [%s %s %s bbox=%r size=%r on %s; levels %r; budget %r]'
